@@ -49,7 +49,7 @@ GenStop == draft.stage # "addr" /\ ninj = 0
 Case(x) ==
   LET d == DraftDgram(x)
   IN [tp |-> x.tp, b0 |-> x.b0, len |-> x.len, tr |-> x.tr, pk |-> x.pk, fam |-> x.fam, from |-> x.from, to |-> x.to,
-      t |-> Trailer(x.tr), path |-> PathOf(x.pk), sc |-> d.sc,
+      t |-> Trailer(x.tr), nat |-> NatLen(x.tr), path |-> PathOf(x.pk), sc |-> d.sc,
       exp |-> Len(Replies(x.to, d)), drop |-> DropStage(x.to, d)]
 Emit == draft.stage = "addr" => PrintT(<<"CASE", ToJson(Case(draft))>>)
 EmitPair == (draft.stage = "addr" /\ draft.from # Client) => PrintT(<<"CASE", ToJson(Case(draft))>>)
